@@ -55,6 +55,9 @@ type Profile struct {
 	// applies deviating modules in a fixed order); never used together with the
 	// reference comparison.
 	CrossDeviationTrap bool
+	// NoTypedefs: the scenario holds no typedef statement at all (a set
+	// without typedefs takes its own paths through type resolution).
+	NoTypedefs bool
 }
 
 // Kinds of invalid construct the generator can inject.
@@ -137,6 +140,9 @@ func (g *gen) rng(r [2]int) int { return g.t.Range(r[0], r[1]) }
 
 func (g *gen) wantInvalid(kind string) bool {
 	if g.invalid >= g.p.MaxInvalid {
+		return false
+	}
+	if g.p.NoTypedefs && (kind == InvTypedefCycle || kind == InvFanoutChain) {
 		return false
 	}
 	ok := false
@@ -326,7 +332,7 @@ func (g *gen) defs(mi int, m *Mod) {
 		}
 		m.Identities = append(m.Identities, id)
 	}
-	for k := g.rng(g.p.Typedefs); k > 0; k-- {
+	for k := g.rng(g.p.Typedefs); k > 0 && !g.p.NoTypedefs; k-- {
 		v := g.visibleFrom(mi, m)
 		td := &Typedef{Name: g.id("t"), Type: g.typ(v, nil, 0)}
 		if t.Chance(1, 3) {
@@ -337,7 +343,7 @@ func (g *gen) defs(mi int, m *Mod) {
 		}
 		m.Typedefs = append(m.Typedefs, td)
 	}
-	if g.p.Extras && t.Chance(1, 8) {
+	if g.p.Extras && !g.p.NoTypedefs && t.Chance(1, 8) {
 		// a string typedef with three patterns and two types refining it with one more each
 		base := &Typedef{Name: g.id("t"), Type: &Type{Ref: Ref{Mod: "", Name: "string"}, Patterns: []string{"a.*", "b.*", ".*c"}}}
 		d1 := &Typedef{Name: g.id("t"), Type: &Type{Ref: Ref{Mod: m.Name, Name: base.Name}, Patterns: []string{g.id("q") + ".*"}}}
@@ -351,7 +357,7 @@ func (g *gen) defs(mi int, m *Mod) {
 	for k := g.rng(g.p.Groupings); k > 0; k-- {
 		v := g.visibleFrom(mi, m)
 		gr := &Grouping{Name: g.id("g")}
-		if t.Chance(1, 4) {
+		if !g.p.NoTypedefs && t.Chance(1, 4) {
 			gr.Typedefs = append(gr.Typedefs, &Typedef{Name: g.id("t"), Type: g.typ(v, nil, 0)})
 		}
 		sc := &scope{v: v}
@@ -789,7 +795,11 @@ func (g *gen) node(mi int, m *Mod, sc *scope, where string, depth int) *Node {
 		if g.wantInvalid(InvUnknownType) {
 			n.Type = &Type{Ref: Ref{Mod: m.Name, Name: g.id("nosuchtype")}}
 		} else if g.wantInvalid(InvBadRange) {
-			switch t.Intn(10) {
+			brk := t.Intn(10)
+			if g.p.NoTypedefs && (brk == 9 || brk == 5) {
+				brk = 0
+			}
+			switch brk {
 			case 6:
 				// min / max with nothing to stand for: the base has no range
 				n.Type = &Type{Ref: Ref{Mod: "", Name: "string"}, Range: "1000..max"}
@@ -866,7 +876,7 @@ func (g *gen) node(mi int, m *Mod, sc *scope, where string, depth int) *Node {
 			// RFC 7950 7.21.1: no config true below config false
 			csc.noConfig = true
 		}
-		if t.Chance(1, 8) {
+		if !g.p.NoTypedefs && t.Chance(1, 8) {
 			td := &Typedef{Name: g.id("t"), Type: g.typ(sc.v, sc, 0)}
 			n.Typedefs = append(n.Typedefs, td)
 			csc.localTypedefs = append(csc.localTypedefs, Ref{Mod: m.Name, Name: td.Name})
@@ -931,7 +941,7 @@ func (g *gen) node(mi int, m *Mod, sc *scope, where string, depth int) *Node {
 		csc.underOp = true
 		// typedefs local to the operation, and to its input / output
 		localTypedef := func(holder *Node, into *scope, chance int) {
-			if t.Chance(1, chance) {
+			if !g.p.NoTypedefs && t.Chance(1, chance) {
 				td := &Typedef{Name: g.id("t"), Type: g.typ(sc.v, sc, 0)}
 				holder.Typedefs = append(holder.Typedefs, td)
 				into.localTypedefs = append(into.localTypedefs, Ref{Mod: m.Name, Name: td.Name})
@@ -956,7 +966,7 @@ func (g *gen) node(mi int, m *Mod, sc *scope, where string, depth int) *Node {
 		n.Name = g.id("nt")
 		csc := sc.child()
 		csc.underOp = true
-		if t.Chance(1, 5) {
+		if !g.p.NoTypedefs && t.Chance(1, 5) {
 			td := &Typedef{Name: g.id("t"), Type: g.typ(sc.v, sc, 0)}
 			n.Typedefs = append(n.Typedefs, td)
 			csc.localTypedefs = append(csc.localTypedefs, Ref{Mod: m.Name, Name: td.Name})
@@ -1673,7 +1683,7 @@ func (g *gen) injectLate() {
 			first, last := holders[0], holders[len(holders)-1]
 			a, b := Ref{Mod: first.Name, Name: name}, Ref{Mod: last.Name, Name: name}
 			u := &Type{Ref: Ref{Mod: "", Name: "union"}, Union: []*Type{{Ref: Ref{Mod: "", Name: "identityref"}, Base: &a}, {Ref: Ref{Mod: "", Name: "identityref"}, Base: &b}}}
-			if t.Chance(1, 2) {
+			if !g.p.NoTypedefs && t.Chance(1, 2) {
 				td := &Typedef{Name: g.id("t"), Type: u}
 				last.Typedefs = append(last.Typedefs, td)
 				u = &Type{Ref: Ref{Mod: last.Name, Name: td.Name}}
